@@ -45,3 +45,32 @@ func vPromCount(x any) int64 {
 	}
 	return -1
 }
+
+// vPromCountL sums the children of a real vector whose label set contains name=value.
+func vPromCountL(x any, name, value string) int64 {
+	col, ok := x.(prometheus.Collector)
+	if !ok {
+		return 0
+	}
+	ch := make(chan prometheus.Metric, 256)
+	col.Collect(ch)
+	close(ch)
+	var total int64
+	for mt := range ch {
+		var m dto.Metric
+		if mt.Write(&m) != nil {
+			return -1
+		}
+		for _, lp := range m.GetLabel() {
+			if lp.GetName() == name && lp.GetValue() == value {
+				if m.Counter != nil {
+					total += int64(m.GetCounter().GetValue())
+				}
+				if m.Summary != nil {
+					total += int64(m.GetSummary().GetSampleCount())
+				}
+			}
+		}
+	}
+	return total
+}
